@@ -167,6 +167,9 @@ func runHarness(lp *LoadedPkg, hs *HarnessSpec, tier int, workers int, verbose b
 	if hs.Sched && maxPre > 0 {
 		levels = []int{0, maxPre}
 	}
+	if hs.Sched && maxPre < 0 {
+		levels = []int{-1} // unbounded preemption (sleep-set reduced)
+	}
 	sh := NewShared(workers)
 	sh.progress = verbose
 	sh.lastProgress = time.Now()
@@ -233,6 +236,7 @@ func runHarness(lp *LoadedPkg, hs *HarnessSpec, tier int, workers int, verbose b
 					}
 				}
 				in := NewInterp(lp.prog, ex)
+				in.trace = os.Getenv("GOSYM_TRACE") != ""
 				in.intMode = hs.IntMode
 				in.tier = tier
 				in.spec = hs
